@@ -31,8 +31,12 @@ struct Case {
 }
 
 fn lengths(tier: Tier) -> Vec<usize> {
-    let _ = tier;
-    vec![0, 1, 2, 1023, 1024, 1025, 2047, 2048, 2049, 8192, 20000, 70000]
+    let mut v = vec![0, 1, 2, 1023, 1024, 1025, 2047, 2048, 2049, 8192, 20000, 70000];
+    if deep(tier) {
+        v.extend([3, 7, 100, 1000, 3071, 3072, 3073, 4095, 4096, 4097, 8191, 8193, 16384, 32768, 65535, 65536]);
+        v.sort();
+    }
+    v
 }
 
 fn read_programs(n: usize, tier: Tier) -> Vec<(String, ReadPlan)> {
@@ -159,7 +163,8 @@ fn cases(tier: Tier) -> &'static Vec<Case> {
             }
         }
         // chunk-size syntax, header-name case: lengths <= 1025, read sizes {1, 7, 4096}
-        let small: Vec<usize> = lengths(tier).into_iter().filter(|&n| n <= 1025 && n > 0).collect();
+        // thorough: the syntax / letter-case variants for every length, not only the small ones
+        let small: Vec<usize> = lengths(tier).into_iter().filter(|&n| (n <= 1025 || (deep(tier) && n <= 20000)) && n > 0).collect();
         for n in small {
             let body = payload(n);
             for syn in ALL_SYNTAX {
